@@ -74,22 +74,36 @@ def compare(got: Dict[Any, Any], want: Dict[Any, Any]) -> Optional[str]:
     return None
 
 
+def variants_of(hist: History, dev: Any, row_order: str) -> List[Tuple[History, Optional[List[Dict[str, Any]]]]]:
+    from datetime import datetime, timezone
+
+    if dev == "tz":
+        # every timestamp at -05:00, starting 21:30 on Dec 31 local time (= 02:30 on Jan 1 UTC): after every +1y step an event's own
+        # year differs from its UTC year
+        h2 = tuple((it[0], it[1], -300) for it in hist)
+        return [(h2, H.materialize(h2, row_order=row_order, base=datetime(2021, 1, 1, 2, 30, 0, tzinfo=timezone.utc)))]
+    if dev == "mixed":
+        # instants at 20:00, 22:00, 00:00, 02:00 UTC around midnight of Dec 30/31 and of Dec 31/Jan 1, one transaction (every position)
+        # written at +09:00 / -05:00: own calendar dates are NOT monotonic along the order of the instants (20:00Z at +09:00 is already
+        # tomorrow, the 22:00Z that follows is still today; 02:00Z at -05:00 is still yesterday), and to-dates cut by own date
+        out = []
+        for day in (30, 31):
+            for i in range(len(hist)):
+                for tz in (540, -300):
+                    h2 = tuple((it[0], "2h", tz if j == i else 0) for j, it in enumerate(hist))
+                    out.append((h2, H.materialize(h2, row_order=row_order, base=datetime(2020, 12, day, 18, 0, 0, tzinfo=timezone.utc))))
+        return out
+    return [(hist, H.materialize(hist, row_order=row_order))]
+
+
 def worker(task: Tuple[Any, ...]) -> Stats:
     from rp2verif.seams import compute as C
 
     root, depth, schedules, steps, _dev, row_order = task[:6]
     tree = Tree(FIRST, SYMBOLS, steps, EXTRA)
     st = Stats()
-    for hist in tree.level(root, depth):
-        if _dev == "tz":
-            # every timestamp at -05:00, starting 21:30 on Dec 31 local time (= 02:30 on Jan 1 UTC): after every +1y step an
-            # event's own year differs from its UTC year
-            from datetime import datetime, timezone
-
-            hist = tuple((it[0], it[1], -300) for it in hist)
-            specs = H.materialize(hist, row_order=row_order, base=datetime(2021, 1, 1, 2, 30, 0, tzinfo=timezone.utc))
-        else:
-            specs = H.materialize(hist, row_order=row_order)
+    for hist0 in tree.level(root, depth):
+      for hist, specs in variants_of(hist0, _dev, row_order):
         if specs is None:
             continue
         tos, froms = dates_of_interest(specs)
@@ -108,6 +122,8 @@ def worker(task: Tuple[Any, ...]) -> Stats:
                 # a few from+to pairs: from = first day of each touched year, to = each year end
                 windows += [(f, t) for f in froms for t in tos if f and t and f <= t and f.month == 1 and f.day == 1 and t.month == 12]
             keys_seen = set()
+            if _dev == "mixed":
+                windows = [w for w in windows if w[0] is None]  # to-dates only (see below)
             for fd, td in windows:
                 st.inc("evaluations")
                 st.inc(f"evaluations_depth_{len(hist)}")
@@ -118,7 +134,12 @@ def worker(task: Tuple[Any, ...]) -> Stats:
                                       what=f"{sched_str(sch)} -f {fd} -t {td}: {H.hist_str(hist)} :: {type(out.error).__name__}: {out.error}"))
                     continue
                 lines, dups = C.yearly_lines(out.computed)
-                want = regroup(all_rows, td)
+                if _dev == "mixed":
+                    # own calendar dates are not monotonic along the instants here, and which fractions a to-date keeps in that case is
+                    # not fixed by the property; what it does fix is that the summary equals the sum of the detail fractions OF THE SAME RUN
+                    want = regroup(C.detail(out.computed), None)
+                else:
+                    want = regroup(all_rows, td)
                 if fd is not None:
                     want = {k: v for k, v in want.items() if k[0] >= fd.year}
                 problem = None
@@ -154,11 +175,13 @@ def plan(tier: str) -> List[Dict[str, Any]]:
             {"name": "multi-year tree, 3 methods", "schedules": sch, "steps": STEPS, "depth": 3, "dev": 0, "group": 1},
             {"name": "multi-year tree, depth 4, hifo", "schedules": [((1970, "hifo"),)], "steps": STEPS, "depth": 4, "dev": 0, "group": 1, "from_depth": 4},
             {"name": "timestamps at -05:00 on New Year's Eve (own year != UTC year)", "schedules": [((1970, "fifo"),)], "steps": STEPS, "depth": 3, "dev": "tz", "group": 1},
+            {"name": "2-hour steps across midnight, one transaction in another UTC offset (own dates not monotonic)", "schedules": [((1970, "fifo"),)], "steps": ("d",), "depth": 3, "dev": "mixed", "group": 1},
         ]
     return [
         {"name": "multi-year tree, 4 methods", "schedules": sch + [((1970, "lofo"),)], "steps": STEPS, "depth": 4, "dev": 0, "group": 1},
         {"name": "sheet order reversed", "schedules": sch, "steps": STEPS, "depth": 3, "dev": 0, "group": 1, "row_order": "reverse"},
         {"name": "timestamps at -05:00 on New Year's Eve (own year != UTC year)", "schedules": sch, "steps": STEPS, "depth": 3, "dev": "tz", "group": 1},
+        {"name": "2-hour steps across midnight, one transaction in another UTC offset (own dates not monotonic)", "schedules": sch, "steps": ("d",), "depth": 4, "dev": "mixed", "group": 1},
         {"name": "multi-year tree, depth 5, fifo+hifo", "schedules": [((1970, "fifo"),), ((1970, "hifo"),)], "steps": STEPS, "depth": 5, "dev": 0, "group": 1, "from_depth": 5},
     ]
 
@@ -187,7 +210,7 @@ def main(tier: str, budget_s: Optional[float] = None) -> int:
         "samples": total.samples[:5],
     }
     common.write_evidence(PROP, tier, LEVEL, coverage, time.time() - t0, new, assumptions=[
-        "one UTC offset per run (UTC, or -05:00 on New Year's Eve so that own year != UTC year); the long/short flag of a fraction is taken from RP2 (C05 decides its correctness)",
+        "one UTC offset per run (UTC, or -05:00 on New Year's Eve so that own year != UTC year); in the mixed-offset phase the summary is compared with the detail table of the same run; the long/short flag of a fraction is taken from RP2 (C05 decides its correctness)",
     ])
     print(f"{PROP} {tier}: evaluations={total.get('evaluations')} histories={total.get('histories')} nontrivial={total.get('distinct_nontrivial')} "
           f"violations={total.get('violations_total')} (unlisted {new}) exhaustive={complete} wall={time.time() - t0:.1f}s")
